@@ -32,7 +32,10 @@ def compatible : Class → String → Bool
 inductive Why where
   /-- the name is that of a *use* met while walking the dependencies (the declaration a path
   starts from is looked up by identifier first, fix C30-blank-decl-deps): a use is never the blank
-  identifier, and the non-blank global names of a package that type-checks are distinct -/
+  identifier, and the non-blank global names of a package that type-checks are distinct. For a
+  package that declares a name twice (not valid Go, reported only later) they are not, and the
+  loop that is reported changes from build to build: known finding `dup-name-loop-report`
+  (fixes/C30-dup-name-loop-report.NOT-APPLIED.md) -/
   | nameOfAUse
   /-- the caller passes its own parameters on: the obligation is its callers' (they are in the
   list too) -/
